@@ -48,6 +48,17 @@ theorem repairs_present : ∀ r ∈ repairs, r ∈ Gen.OrderSites.orderedSites :
     (nothing is carried from one decompiled method to the next through globals) -/
 theorem no_cross_method_state : Gen.OrderSites.globalMutations = [] := by decide
 
+/-- every in-place mutation of a value fetched from a DvMethod/DvClass attribute of another object is the
+    one classified in `knownAliasMutations` (a new shared-mutable-state path breaks this) … -/
+theorem alias_mutations_classified :
+    ∀ m ∈ Gen.OrderSites.aliasMutations, m ∈ knownAliasMutations := by decide
+
+/-- … and the assumption that makes it harmless holds of the tree under test: the `access` lists are
+    produced fresh on every call (not memoised) and stored directly, so no two DvMethod/DvClass objects
+    share one (together with `no_cross_method_state`, whose list also contains every function memoised with
+    lru_cache/cache that returns a mutable container) -/
+theorem access_lists_are_fresh : Gen.OrderSites.accessSources = expectedAccessSources := by decide
+
 /-! ## A1 compute_end -/
 
 /-- `compute_end` does not depend on the enumeration when at most one node of the interval has a
